@@ -66,6 +66,13 @@ def order_rule(ctx: Ctx, rid: str) -> dict:
         ok2 = order[0] == roles.index("IF")
         r.check(ok2, "execution_ordering|fetch-first", f.loc(cfg["node"]),
                 f"execution_ordering {order} does not start with IF")
+    if okp and "WB" in roles and "MEM" in roles and rid == "R02.order":
+        # Pipeline.step abandons the cycle at the stage that raises.  A load/store faults in MEM; the instruction in front of it
+        # is in WB in that cycle and has retired in single-cycle mode, so its register write must already have happened.
+        ok3 = order.index(roles.index("WB")) < order.index(roles.index("MEM"))
+        r.check(ok3, "execution_ordering|retire-before-fault", f.loc(cfg["node"]),
+                f"execution_ordering {order} runs MEM before WB: when a load/store faults in MEM the cycle is abandoned before the older "
+                "instruction in WB has written its register, so the registers at the fault differ from single-cycle mode")
     return cfg
 
 
